@@ -199,25 +199,6 @@ declared element type is `KIND [lo:hi] OF base` when it is the same kind of aggr
 acceptable, and its bounds conform: identical for ARRAY; for LIST/BAG/SET the element's bounds lie within the declared
 ones (an indeterminate upper bound only within an indeterminate one).  (EXPRESS also lets a SET stand for a BAG; the
 runtime's classes are unrelated, this reading keeps "same kind".)  `Ty` above is a type *up to bounds*. -/
-inductive BTy
-  | simple (t : Nat)
-  | agg (k : Kind) (lo : Int) (hi : Option Int) (b : BTy)
-  deriving DecidableEq, Repr
-
-def eraseBounds : BTy → Ty
-  | .simple t => .simple t
-  | .agg k _ _ b => .agg k (eraseBounds b)
-
-def upperWithin : Option Int → Option Int → Bool
-  | _, none => true
-  | none, some _ => false
-  | some a, some b => decide (a ≤ b)
-
-def boundsConform (k : Kind) (lo : Int) (hi : Option Int) (lo' : Int) (hi' : Option Int) : Bool :=
-  match k with
-  | .array => decide (lo = lo') && decide (hi = hi')
-  | _ => decide (lo' ≤ lo) && upperWithin hi hi'
-
 /-- `x` may stand where `e` is declared -/
 def specializes : BTy → BTy → Bool
   | .simple t, .simple t' => decide (t = t')
